@@ -65,26 +65,97 @@ Proof. intros A l. unfold last2. rewrite skipn_length. lia. Qed.
 Lemma is_empty_nil : forall {A} (l : list A), is_empty l = true -> l = [].
 Proof. intros A [|a l] H; [reflexivity|discriminate]. Qed.
 
+Lemma is_empty_length : forall {A} (l : list A), is_empty l = Nat.eqb (length l) 0.
+Proof. intros A [|a l]; reflexivity. Qed.
+
+Lemma in_keys : forall {A} (k : nat) (v : A) (l : list (nat * A)), In (k, v) l -> In k (map fst l).
+Proof. intros A k v l H. apply (in_map (@fst nat A)) in H. exact H. Qed.
+
+Lemma nodup_lookupn : forall {A} (l : list (nat * A)) k v, NoDup (map fst l) -> In (k, v) l -> lookupn k l = Some v.
+Proof.
+  intros A l. induction l as [|[k0 v0] l IH]; intros k v Hnd Hin; simpl in *; [contradiction|].
+  inversion Hnd as [|? ? Hnot Hnd']; subst.
+  destruct Hin as [Heq|Hin].
+  - injection Heq as -> ->. rewrite Nat.eqb_refl. reflexivity.
+  - destruct (Nat.eqb k k0) eqn:E.
+    + apply Nat.eqb_eq in E. subst. exfalso. apply Hnot. eapply in_keys; eauto.
+    + apply IH; assumption.
+Qed.
+
+Lemma keys_setn : forall {A} k (v : A) (l : list (nat * A)) k', In k' (map fst (setn k v l)) -> k' = k \/ In k' (map fst l).
+Proof.
+  intros A k v l. induction l as [|[k0 v0] l IH]; intros k' H; simpl in *.
+  - destruct H as [H|[]]. left; auto.
+  - destruct (Nat.eqb k k0) eqn:E; simpl in H.
+    + apply Nat.eqb_eq in E. subst. destruct H as [H|H]; [left; auto|right; right; exact H].
+    + destruct H as [H|H]; [right; left; exact H|]. destruct (IH _ H) as [H1|H1]; [left; exact H1|right; right; exact H1].
+Qed.
+
+Lemma nodup_setn : forall {A} k (v : A) (l : list (nat * A)), NoDup (map fst l) -> NoDup (map fst (setn k v l)).
+Proof.
+  intros A k v l. induction l as [|[k0 v0] l IH]; intros Hnd; simpl.
+  - constructor; [intros []|constructor].
+  - inversion Hnd as [|? ? Hnot Hnd']; subst. destruct (Nat.eqb k k0) eqn:E; simpl.
+    + apply Nat.eqb_eq in E. subst. constructor; assumption.
+    + constructor; [|apply IH; exact Hnd'].
+      intros Hin. destruct (keys_setn _ _ _ _ Hin) as [H1|H1]; [subst; rewrite Nat.eqb_refl in E; discriminate|contradiction].
+Qed.
+
+Lemma keys_deln : forall {A} k (l : list (nat * A)) k', In k' (map fst (deln k l)) -> In k' (map fst l).
+Proof.
+  intros A k l. induction l as [|[k0 v0] l IH]; intros k' H; simpl in *; [contradiction|].
+  destruct (Nat.eqb k k0); simpl in H; [right; apply IH; exact H|].
+  destruct H as [H|H]; [left; exact H|right; apply IH; exact H].
+Qed.
+
+Lemma nodup_deln : forall {A} k (l : list (nat * A)), NoDup (map fst l) -> NoDup (map fst (deln k l)).
+Proof.
+  intros A k l. induction l as [|[k0 v0] l IH]; intros Hnd; simpl; [constructor|].
+  inversion Hnd as [|? ? Hnot Hnd']; subst. destruct (Nat.eqb k k0); simpl; [apply IH; exact Hnd'|].
+  constructor; [|apply IH; exact Hnd']. intros Hin. apply Hnot. eapply keys_deln; eauto.
+Qed.
+
+Lemma nodup_filter_keys : forall {A} (f : nat * A -> bool) (l : list (nat * A)), NoDup (map fst l) -> NoDup (map fst (filter f l)).
+Proof.
+  intros A f l. induction l as [|x l IH]; intros Hnd; simpl; [constructor|].
+  inversion Hnd as [|? ? Hnot Hnd']; subst. destruct (f x); simpl; [|apply IH; exact Hnd'].
+  constructor; [|apply IH; exact Hnd']. intros Hin. apply Hnot.
+  apply in_map_iff in Hin. destruct Hin as (y & Hy & Hin). apply filter_In in Hin. destruct Hin as [Hin _].
+  apply in_map_iff. exists y. auto.
+Qed.
+
+Lemma filter_len_le : forall {A} (f : A -> bool) l, length (filter f l) <= length l.
+Proof. intros A f l. induction l as [|x l IH]; simpl; [lia|]. destruct (f x); simpl; lia. Qed.
+
+Lemma filter_length_same : forall {A} (f : A -> bool) l, length (filter f l) = length l -> filter f l = l.
+Proof.
+  intros A f l. induction l as [|x l IH]; intros H; simpl in *; [reflexivity|].
+  destruct (f x); simpl in H.
+  - f_equal. apply IH. lia.
+  - pose proof (filter_len_le f l). lia.
+Qed.
+
 (* ---------- _update_converted keeps the pool well-formed ---------- *)
 
 Definition CurOK (c : list (nat * item)) (n : nat) (iv : list (nat * list item)) (invd : list nat) : Prop :=
   (forall k it, In (k, it) c -> iid it < n) /\
   (forall k1 i1 k2 i2, In (k1, i1) c -> In (k2, i2) c -> iid i1 = iid i2 -> k1 = k2) /\
   (forall k it, In (k, it) c -> ~ In (iid it) invd) /\
-  (forall k it, lookupn k c = Some it -> cred_in (cred it) (hist k iv) = false).
+  (forall k it, lookupn k c = Some it -> cred_in (cred it) (hist k iv) = false) /\
+  NoDup (map fst c).
 
 Lemma update_converted_ok : forall src c n iv invd c' n',
   (forall id, In id invd -> id < n) ->
   CurOK c n iv invd -> update_converted src c iv n = (c', n') ->
-  CurOK c' n' iv invd /\ n <= n'.
+  CurOK c' n' iv invd /\ n <= n' /\ (forall k it, In (k, it) c' -> In (k, it) c \/ n <= iid it).
 Proof.
-  induction src as [|[[k cr] p] src IH]; intros c n iv invd c' n' Hinvd HC H; simpl in H.
-  - injection H as <- <-. split; [exact HC|lia].
+  induction src as [|[[[k cr] p] e] src IH]; intros c n iv invd c' n' Hinvd HC H; simpl in H.
+  - injection H as <- <-. split; [exact HC|]. split; [lia|]. intros; left; assumption.
   - destruct (cred_in cr (hist k iv)) eqn:Ecr.
     + apply (IH _ _ _ _ _ _ Hinvd HC H).
-    + destruct HC as (H1 & H2 & H3 & H4).
-      assert (HC' : CurOK (setn k {| iid := n; cred := cr; prio := p |} c) (S n) iv invd).
-      { repeat split.
+    + destruct HC as (H1 & H2 & H3 & H4 & H5).
+      assert (HC' : CurOK (setn k {| iid := n; cred := cr; prio := p; exp := e |} c) (S n) iv invd).
+      { split; [|split; [|split; [|split]]].
         - intros k0 it Hin. destruct (in_setn _ _ _ _ _ Hin) as [[_ ->]|Hin']; [simpl; lia|].
           specialize (H1 _ _ Hin'). lia.
         - intros k1 i1 k2 i2 Hi1 Hi2 Heq.
@@ -98,9 +169,12 @@ Proof.
           + eapply H3; eauto.
         - intros k0 it Hl. rewrite lookupn_setn in Hl. destruct (Nat.eqb k0 k) eqn:E.
           + apply Nat.eqb_eq in E. subst k0. injection Hl as <-. simpl. exact Ecr.
-          + apply H4. exact Hl. }
+          + apply H4. exact Hl.
+        - apply nodup_setn. exact H5. }
       assert (Hinvd' : forall id, In id invd -> id < S n) by (intros id Hid; specialize (Hinvd _ Hid); lia).
-      destruct (IH _ _ _ _ _ _ Hinvd' HC' H) as [Hok Hle]. split; [exact Hok|lia].
+      destruct (IH _ _ _ _ _ _ Hinvd' HC' H) as (Hok & Hle & Horig). split; [exact Hok|]. split; [lia|].
+      intros k0 it Hin. destruct (Horig _ _ Hin) as [Hin'|Hge]; [|right; lia].
+      destruct (in_setn _ _ _ _ _ Hin') as [[_ ->]|Hin'']; [right; simpl; lia|left; exact Hin''].
 Qed.
 
 (* ---------- the invariant ---------- *)
@@ -114,13 +188,13 @@ Record Inv (e0 : nat) (s : vstate) : Prop := {
   I_hist : forall k, length (hist k (inv s)) <= 3;
   I_busy : busy s = true -> ready s = false;
   I_count : flips s = wakes s + b2n (negb (ready s || busy s));
-  I_credit : flips s + b2n (ready s && is_empty (cur s)) <= length (invalidated s) + barren s + e0
+  I_credit : flips s + b2n (ready s && is_empty (cur s)) <= length (invalidated s) + barren s + expirations s + e0
 }.
 
-Definition e0_of (src : list (nat * Z * Z)) : nat := b2n (is_empty (fst (update_converted src [] [] 0))).
+Definition e0_of (src : list (nat * Z * Z * option Z)) : nat := b2n (is_empty (fst (update_converted src [] [] 0))).
 
 Lemma CurOK_nil : forall iv invd, CurOK [] 0 iv invd.
-Proof. intros. repeat split; intros; simpl in *; try contradiction; discriminate. Qed.
+Proof. intros. repeat split; intros; simpl in *; try contradiction; try discriminate. constructor. Qed.
 
 Lemma Inv_init : forall src, Inv (e0_of src) (init src).
 Proof.
@@ -137,31 +211,67 @@ Proof.
   - destruct (is_empty c); simpl; lia.
 Qed.
 
+(* steps that only change a requester's state keep the invariant *)
+Lemma Inv_set_req : forall e0 s r x, Inv e0 s -> Inv e0 (set_req s r x).
+Proof. intros e0 s r x [HC Hlt Hnd Hh Hb Hcnt Hcr]. constructor; simpl; assumption. Qed.
+
+Lemma CurOK_sub : forall c c' n iv invd,
+  CurOK c n iv invd -> (forall k it, In (k, it) c' -> In (k, it) c) -> NoDup (map fst c') -> CurOK c' n iv invd.
+Proof.
+  intros c c' n iv invd (H1 & H2 & H3 & H4 & H5) Hsub Hnd.
+  split; [|split; [|split; [|split]]]; eauto.
+  - intros k it Hl. apply H4. apply nodup_lookupn; [exact H5|]. apply Hsub. apply lookupn_in. exact Hl.
+Qed.
+
 Lemma Inv_step : forall e0 s l s', Inv e0 s -> step s l = Some s' -> Inv e0 s'.
 Proof.
-  intros e0 s l s' HI H. destruct HI as [HC Hlt Hnd Hh Hb Hcnt Hcr].
-  destruct l as [r k id|r|r|r blocked|r o| |src]; simpl in H.
+  intros e0 s l s' HI H.
+  destruct l as [r now blocked|r o|r k id|r|r|r blocked|r o|r again| |src]; simpl in H.
+  - (* Expire *)
+    destruct HI as [HC Hlt Hnd Hh Hb Hcnt Hcr].
+    destruct (rget r s); try discriminate. destruct (ready s) eqn:Er; [|discriminate].
+    set (c' := drop_expired now (cur s)) in *.
+    assert (Hsub : forall k it, In (k, it) c' -> In (k, it) (cur s)).
+    { intros k it Hin. unfold c', drop_expired in Hin. apply filter_In in Hin. tauto. }
+    assert (HC' : CurOK c' (nextid s) (inv s) (invalidated s)).
+    { eapply CurOK_sub; [exact HC|exact Hsub|]. apply nodup_filter_keys. destruct HC as (_ & _ & _ & _ & H5). exact H5. }
+    assert (Hbz : busy s = false) by (destruct (busy s); [specialize (Hb eq_refl); discriminate|reflexivity]).
+    destruct (negb (Nat.eqb (length c') (length (cur s))) && is_empty c') eqn:Ew;
+      destruct blocked; simpl in H; try discriminate; injection H as <-; constructor; simpl; try assumption;
+      try (intros; reflexivity); try (intros Hx; rewrite Hbz in Hx; discriminate);
+      try (rewrite Hbz in *; simpl in *; lia).
+    (* not waiting: either nothing was dropped, or something is left *)
+    apply andb_false_iff in Ew. destruct Ew as [Ew|Ew].
+    + apply negb_false_iff in Ew. apply Nat.eqb_eq in Ew.
+      assert (Hsame : c' = cur s) by (apply filter_length_same; exact Ew). rewrite Hsame. exact Hcr.
+    + rewrite Ew. simpl. destruct (is_empty (cur s)); simpl in *; lia.
+  - (* WakeExp *)
+    destruct (rget r s); try discriminate.
+    match type of H with (if ?c then _ else _) = _ => destruct c end; [|discriminate].
+    injection H as <-. apply Inv_set_req. exact HI.
   - (* Select *)
     destruct (rget r s); try discriminate. destruct (lookupn k (cur s)); try discriminate.
-    destruct (ready s && Nat.eqb (iid i) id && top_prio (cur s) (prio i)); [|discriminate].
-    injection H as <-. constructor; simpl; assumption.
+    match type of H with (if ?c then _ else _) = _ => destruct c end; [|discriminate].
+    injection H as <-. apply Inv_set_req. exact HI.
   - (* SelectErr *)
-    destruct (rget r s); try discriminate. destruct (ready s && is_empty (cur s)) eqn:E; [|discriminate].
-    injection H as <-. constructor; try assumption. rewrite E. exact Hcr.
+    destruct (rget r s); try discriminate.
+    match type of H with (if ?c then _ else _) = _ => destruct c end; [|discriminate].
+    injection H as <-. exact HI.
   - (* Done *)
-    destruct (rget r s); try discriminate. injection H as <-. constructor; simpl; assumption.
+    destruct (rget r s); try discriminate. injection H as <-. apply Inv_set_req. exact HI.
   - (* Invalidate *)
-    destruct (rget r s) as [|k it|]; try discriminate.
+    destruct HI as [HC Hlt Hnd Hh Hb Hcnt Hcr].
+    destruct (rget r s) as [| |k it| |]; try discriminate.
     destruct (lookupn k (cur s)) as [it'|] eqn:Hl.
     + destruct (Nat.eqb (iid it') (iid it)) eqn:Eid.
       * (* effective *)
         apply Nat.eqb_eq in Eid.
         destruct (Bool.eqb blocked (is_empty (deln k (cur s)))); [|discriminate].
         injection H as <-.
-        destruct HC as (H1 & H2 & H3 & H4).
+        destruct HC as (H1 & H2 & H3 & H4 & H5).
         pose proof (lookupn_in _ _ _ Hl) as Hin'.
         constructor; simpl.
-        -- repeat split.
+        -- split; [|split; [|split; [|split]]].
            ++ intros k0 it0 Hin. destruct (in_deln _ _ _ _ Hin) as [Hin0 _]. eapply H1; eauto.
            ++ intros k1 i1 k2 i2 Hi1 Hi2. destruct (in_deln _ _ _ _ Hi1) as [Hi1' _].
               destruct (in_deln _ _ _ _ Hi2) as [Hi2' _]. eapply H2; eauto.
@@ -170,6 +280,7 @@ Proof.
               apply Hne. eapply (H2 k0 it0 k it'); eauto. congruence.
            ++ intros k0 it0 Hl0. rewrite lookupn_deln in Hl0. destruct (Nat.eqb k0 k) eqn:E; [discriminate|].
               rewrite hist_setn. rewrite E. apply H4. exact Hl0.
+           ++ apply nodup_deln. exact H5.
         -- intros id0 [<-|Hid]; [rewrite <- Eid; eapply H1; eauto|apply Hlt; exact Hid].
         -- constructor; [|exact Hnd]. rewrite <- Eid. eapply H3; eauto.
         -- intros k0. rewrite hist_setn. destruct (Nat.eqb k0 k); [|apply Hh].
@@ -207,8 +318,13 @@ Proof.
   - (* Wake *)
     destruct (rget r s); try discriminate.
     match type of H with (if ?c then _ else _) = _ => destruct c end; [|discriminate].
-    injection H as <-. constructor; simpl; assumption.
+    injection H as <-. apply Inv_set_req. exact HI.
+  - (* Recheck *)
+    destruct (rget r s); try discriminate.
+    match type of H with (if ?c then _ else _) = _ => destruct c end; [|discriminate].
+    injection H as <-. apply Inv_set_req. exact HI.
   - (* WakeEmpty *)
+    destruct HI as [HC Hlt Hnd Hh Hb Hcnt Hcr].
     destruct (negb (ready s) && negb (busy s)) eqn:E; [|discriminate].
     apply andb_true_iff in E. destruct E as [E1 E2]. apply negb_true_iff in E1. apply negb_true_iff in E2.
     injection H as <-. constructor; simpl; try assumption.
@@ -216,10 +332,11 @@ Proof.
     + rewrite E1, E2 in Hcnt. simpl in Hcnt. lia.
     + rewrite E1 in Hcr. simpl in Hcr. exact Hcr.
   - (* Populate *)
+    destruct HI as [HC Hlt Hnd Hh Hb Hcnt Hcr].
     destruct (busy s) eqn:Eb; [|discriminate]. specialize (Hb eq_refl).
     destruct (update_converted src (cur s) (inv s) (nextid s)) as [c' n'] eqn:Hu.
     injection H as <-.
-    destruct (update_converted_ok _ _ _ _ _ _ _ Hlt HC Hu) as [Hok Hle].
+    destruct (update_converted_ok _ _ _ _ _ _ _ Hlt HC Hu) as (Hok & Hle & _).
     constructor; simpl; try assumption.
     + intros id Hid. specialize (Hlt _ Hid). lia.
     + discriminate.
@@ -237,14 +354,194 @@ Qed.
 Lemma reachable_inv : forall src tr s, run (init src) tr = Some s -> Inv (e0_of src) s.
 Proof. intros src tr s H. eapply Inv_run; [apply Inv_init|exact H]. Qed.
 
+(* ---------- what the requesters hold ---------- *)
+
+Definition held (x : rstate) : option (nat * item) :=
+  match x with RHold k it | RBlocked k it | RAfter k it => Some (k, it) | _ => None end.
+
+Definition gone (x : rstate) : option (nat * item) :=
+  match x with RBlocked k it | RAfter k it => Some (k, it) | _ => None end.
+
+(* an item a requester holds is an old identity, unique to its key; once the requester has been through
+   invalidate() that identity is nowhere in the pool any more (and never comes back) *)
+Definition HInv (s : vstate) : Prop :=
+  (forall r k it, held (rget r s) = Some (k, it) ->
+     iid it < nextid s /\ forall k' it', In (k', it') (cur s) -> iid it' = iid it -> k' = k) /\
+  (forall r k it, gone (rget r s) = Some (k, it) ->
+     forall k' it', In (k', it') (cur s) -> iid it' <> iid it).
+
+Lemma rget_set : forall s r x r' (s' : vstate),
+  req s' = with_req s r x -> rget r' s' = if Nat.eqb r' r then x else rget r' s.
+Proof.
+  intros s r x r' s' H. unfold rget. rewrite H. unfold with_req. rewrite lookupn_setn.
+  destruct (Nat.eqb r' r); reflexivity.
+Qed.
+
+Lemma HInv_change : forall s s' r0 x,
+  HInv s ->
+  (forall k it, In (k, it) (cur s') -> In (k, it) (cur s)) -> nextid s' = nextid s ->
+  req s' = with_req s r0 x ->
+  (forall k it, held x = Some (k, it) ->
+     iid it < nextid s /\ forall k' it', In (k', it') (cur s') -> iid it' = iid it -> k' = k) ->
+  (forall k it, gone x = Some (k, it) -> forall k' it', In (k', it') (cur s') -> iid it' <> iid it) ->
+  HInv s'.
+Proof.
+  intros s s' r0 x [Hh Hg] Hsub Hn Hreq Hxh Hxg. split.
+  - intros r k it H. rewrite (rget_set s r0 x r s' Hreq) in H. rewrite Hn.
+    destruct (Nat.eqb r r0); [exact (Hxh k it H)|].
+    destruct (Hh r k it H) as [H1 H2]. split; [exact H1|]. intros k' it' Hin. apply H2. apply Hsub. exact Hin.
+  - intros r k it H. rewrite (rget_set s r0 x r s' Hreq) in H.
+    destruct (Nat.eqb r r0); [exact (Hxg k it H)|].
+    intros k' it' Hin. apply (Hg r k it H k' it'). apply Hsub. exact Hin.
+Qed.
+
+Lemma HInv_same_req : forall s s',
+  HInv s -> (forall k it, In (k, it) (cur s') -> In (k, it) (cur s)) -> nextid s' = nextid s -> req s' = req s -> HInv s'.
+Proof.
+  intros s s' [Hh Hg] Hsub Hn Hreq.
+  assert (Hr : forall r, rget r s' = rget r s) by (intros r; unfold rget; rewrite Hreq; reflexivity).
+  split.
+  - intros r k it H. rewrite Hr in H. rewrite Hn. destruct (Hh r k it H) as [H1 H2]. split; [exact H1|].
+    intros k' it' Hin. apply H2. apply Hsub. exact Hin.
+  - intros r k it H. rewrite Hr in H. intros k' it' Hin. apply (Hg r k it H k' it'). apply Hsub. exact Hin.
+Qed.
+
+Lemma HInv_init : forall src, HInv (init src).
+Proof.
+  intros src. unfold init. destruct (update_converted src [] [] 0) as [c n].
+  split; intros r k it H; unfold rget in H; simpl in H; discriminate.
+Qed.
+
+Lemma HInv_step : forall e0 s l s', Inv e0 s -> HInv s -> step s l = Some s' -> HInv s'.
+Proof.
+  intros e0 s l s' HI HH H. pose proof HH as [Hh Hg].
+  destruct HI as [(H1 & H2 & H3 & H4 & H5) Hlt _ _ _ _ _].
+  destruct l as [r now blocked|r o|r k id|r|r|r blocked|r o|r again| |src]; simpl in H.
+  - (* Expire *)
+    destruct (rget r s); try discriminate. destruct (ready s); [|discriminate].
+    match type of H with (if ?c then _ else _) = _ => destruct c end; [|discriminate].
+    injection H as <-.
+    eapply (HInv_change s _ r); [exact HH| | reflexivity | reflexivity | |].
+    + simpl. intros k it Hin. unfold drop_expired in Hin. apply filter_In in Hin. tauto.
+    + intros k it Hx. destruct (_ && _); discriminate.
+    + intros k it Hx. destruct (_ && _); discriminate.
+  - (* WakeExp *)
+    destruct (rget r s); try discriminate.
+    match type of H with (if ?c then _ else _) = _ => destruct c end; [|discriminate].
+    injection H as <-.
+    eapply (HInv_change s _ r); [exact HH|simpl; auto|reflexivity|reflexivity| |];
+      intros k it Hx; destruct (ready s); discriminate.
+  - (* Select *)
+    destruct (rget r s); try discriminate. destruct (lookupn k (cur s)) as [it|] eqn:Hl; try discriminate.
+    match type of H with (if ?c then _ else _) = _ => destruct c end; [|discriminate].
+    injection H as <-. pose proof (lookupn_in _ _ _ Hl) as Hin.
+    eapply (HInv_change s _ r); [exact HH|simpl; auto|reflexivity|reflexivity| |].
+    + intros k0 it0 Hx. simpl in Hx. injection Hx as <- <-. split; [exact (H1 _ _ Hin)|].
+      simpl. intros k' it' Hin' Heq. exact (H2 _ _ _ _ Hin' Hin Heq).
+    + intros k0 it0 Hx. discriminate.
+  - (* SelectErr *)
+    destruct (rget r s); try discriminate.
+    match type of H with (if ?c then _ else _) = _ => destruct c end; [|discriminate].
+    injection H as <-. exact HH.
+  - (* Done *)
+    destruct (rget r s); try discriminate. injection H as <-.
+    eapply (HInv_change s _ r); [exact HH|simpl; auto|reflexivity|reflexivity| |]; intros k0 it0 Hx; discriminate.
+  - (* Invalidate *)
+    destruct (rget r s) as [| |k it| |] eqn:Er; try discriminate.
+    assert (Hheld : held (rget r s) = Some (k, it)) by (rewrite Er; reflexivity).
+    destruct (Hh r k it Hheld) as [Hlt' Huq].
+    destruct (lookupn k (cur s)) as [it'|] eqn:Hl.
+    + destruct (Nat.eqb (iid it') (iid it)) eqn:Eid.
+      * match type of H with (if ?c then _ else _) = _ => destruct c end; [|discriminate].
+        injection H as <-.
+        eapply (HInv_change s _ r); [exact HH| |reflexivity|reflexivity| |].
+        -- simpl. intros k0 it0 Hin. apply in_deln in Hin. tauto.
+        -- intros k0 it0 Hx. assert (Some (k0, it0) = Some (k, it)) as Hy by (destruct (is_empty _); simpl in Hx; congruence).
+           injection Hy as -> ->. split; [exact Hlt'|]. simpl. intros k' it0 Hin. apply in_deln in Hin. apply Huq. tauto.
+        -- intros k0 it0 Hx. assert (Some (k0, it0) = Some (k, it)) as Hy by (destruct (is_empty _); simpl in Hx; congruence).
+           injection Hy as -> ->. simpl. intros k' it0 Hin Heq. apply in_deln in Hin. destruct Hin as [Hin Hne].
+           apply Hne. eapply Huq; eauto.
+      * match type of H with (if ?c then _ else _) = _ => destruct c end; [|discriminate].
+        injection H as <-.
+        eapply (HInv_change s _ r); [exact HH|simpl; auto|reflexivity|reflexivity| |].
+        -- intros k0 it0 Hx. assert (Some (k0, it0) = Some (k, it)) as Hy by (destruct (is_empty _); simpl in Hx; congruence).
+           injection Hy as -> ->. split; [exact Hlt'|exact Huq].
+        -- intros k0 it0 Hx. assert (Some (k0, it0) = Some (k, it)) as Hy by (destruct (is_empty _); simpl in Hx; congruence).
+           injection Hy as -> ->. simpl. intros k' it0 Hin Heq.
+           assert (k' = k) by (eapply Huq; eauto). subst k'.
+           rewrite (nodup_lookupn _ _ _ H5 Hin) in Hl. injection Hl as ->.
+           rewrite Heq, Nat.eqb_refl in Eid. discriminate.
+    + match type of H with (if ?c then _ else _) = _ => destruct c end; [|discriminate].
+      injection H as <-.
+      eapply (HInv_change s _ r); [exact HH|simpl; auto|reflexivity|reflexivity| |].
+      * intros k0 it0 Hx. assert (Some (k0, it0) = Some (k, it)) as Hy by (destruct (is_empty _); simpl in Hx; congruence).
+        injection Hy as -> ->. split; [exact Hlt'|exact Huq].
+      * intros k0 it0 Hx. assert (Some (k0, it0) = Some (k, it)) as Hy by (destruct (is_empty _); simpl in Hx; congruence).
+        injection Hy as -> ->. simpl. intros k' it0 Hin Heq.
+        assert (k' = k) by (eapply Huq; eauto). subst k'.
+        rewrite (nodup_lookupn _ _ _ H5 Hin) in Hl. discriminate.
+  - (* Wake *)
+    destruct (rget r s) as [| | |k it|] eqn:Er; try discriminate.
+    assert (Hheld : held (rget r s) = Some (k, it)) by (rewrite Er; reflexivity).
+    assert (Hgone : gone (rget r s) = Some (k, it)) by (rewrite Er; reflexivity).
+    match type of H with (if ?c then _ else _) = _ => destruct c end; [|discriminate].
+    injection H as <-.
+    eapply (HInv_change s _ r); [exact HH|simpl; auto|reflexivity|reflexivity| |].
+    + intros k0 it0 Hx. assert (Some (k0, it0) = Some (k, it)) as Hy
+        by (destruct (ready s); [destruct (is_empty (cur s))|]; simpl in Hx; congruence).
+      injection Hy as -> ->. apply (Hh r k it Hheld).
+    + intros k0 it0 Hx. assert (Some (k0, it0) = Some (k, it)) as Hy
+        by (destruct (ready s); [destruct (is_empty (cur s))|]; simpl in Hx; congruence).
+      injection Hy as -> ->. apply (Hg r k it Hgone).
+  - (* Recheck *)
+    destruct (rget r s); try discriminate.
+    match type of H with (if ?c then _ else _) = _ => destruct c end; [|discriminate].
+    injection H as <-.
+    eapply (HInv_change s _ r); [exact HH|simpl; auto|reflexivity|reflexivity| |]; intros k0 it0 Hx; discriminate.
+  - (* WakeEmpty *)
+    match type of H with (if ?c then _ else _) = _ => destruct c end; [|discriminate].
+    injection H as <-. eapply HInv_same_req; [exact HH|simpl; auto|reflexivity|reflexivity].
+  - (* Populate *)
+    destruct (busy s); [|discriminate].
+    destruct (update_converted src (cur s) (inv s) (nextid s)) as [c' n'] eqn:Hu.
+    injection H as <-.
+    destruct (update_converted_ok _ _ _ _ _ _ _ Hlt (conj H1 (conj H2 (conj H3 (conj H4 H5)))) Hu) as (_ & Hle & Horig).
+    split.
+    + intros r k it Hx. change (rget r (upd s c' (inv s) true false n' (req s) (wakes s) (flips s) (invalidated s)
+                                         (if is_empty c' then S (barren s) else barren s) (expirations s)))
+                          with (rget r s) in Hx.
+      destruct (Hh r k it Hx) as [Ha Hb]. simpl. split; [lia|].
+      intros k' it' Hin Heq. destruct (Horig _ _ Hin) as [Hin'|Hge]; [eapply Hb; eauto|lia].
+    + intros r k it Hx. change (rget r (upd s c' (inv s) true false n' (req s) (wakes s) (flips s) (invalidated s)
+                                         (if is_empty c' then S (barren s) else barren s) (expirations s)))
+                          with (rget r s) in Hx.
+      simpl. intros k' it' Hin Heq. destruct (Horig _ _ Hin) as [Hin'|Hge]; [eapply (Hg r k it Hx); eauto|].
+      assert (Hheld : held (rget r s) = Some (k, it)) by (destruct (rget r s); simpl in *; congruence).
+      destruct (Hh r k it Hheld) as [Ha _]. lia.
+Qed.
+
+Lemma both_run : forall e0 tr s s', Inv e0 s -> HInv s -> run s tr = Some s' -> Inv e0 s' /\ HInv s'.
+Proof.
+  intros e0 tr. induction tr as [|l tr IH]; intros s s' HI HH H; simpl in H.
+  - injection H as <-. auto.
+  - destruct (step s l) as [s1|] eqn:Hs; [|discriminate].
+    eapply IH; [eapply Inv_step; eauto|eapply HInv_step; eauto|exact H].
+Qed.
+
+Lemma reachable_hinv : forall src tr s, run (init src) tr = Some s -> HInv s.
+Proof. intros src tr s H. eapply both_run; [apply Inv_init|apply HInv_init|exact H]. Qed.
+
 (* ---------- the theorems ---------- *)
 
+Lemma rget_set_req : forall s r x r', rget r' (set_req s r x) = if Nat.eqb r' r then x else rget r' s.
+Proof. intros. apply (rget_set s r x r' (set_req s r x)). reflexivity. Qed.
+
 (* Re-authentication episodes are bounded by the number of DISTINCT item identities that were
-   invalidated (+ logins that produced nothing usable, + the initial login of an empty vault),
-   however many requesters report the failure of the same item. *)
+   invalidated (+ logins that produced nothing usable, + expirations that emptied the vault, + the
+   initial login of an empty vault), however many requesters report the failure of the same item. *)
 Lemma single_reauth : forall src tr s,
   run (init src) tr = Some s ->
-  wakes s <= length (invalidated s) + barren s + e0_of src /\ NoDup (invalidated s).
+  wakes s <= length (invalidated s) + barren s + expirations s + e0_of src /\ NoDup (invalidated s).
 Proof.
   intros src tr s H. destruct (reachable_inv _ _ _ H) as [_ _ Hnd _ _ Hcnt Hcr]. split; [|exact Hnd].
   destruct (ready s && is_empty (cur s)); simpl in Hcr; lia.
@@ -256,50 +553,43 @@ Lemma select_fresh : forall src tr s r k id s',
   ~ In id (invalidated s) /\ ready s = true /\
   exists it, lookupn k (cur s) = Some it /\ iid it = id /\ rget r s' = RHold k it.
 Proof.
-  intros src tr s r k id s' Hrun H. destruct (reachable_inv _ _ _ Hrun) as [(H1 & H2 & H3 & H4) _ _ _ _ _ _].
+  intros src tr s r k id s' Hrun H. destruct (reachable_inv _ _ _ Hrun) as [(H1 & H2 & H3 & H4 & H5) _ _ _ _ _ _].
   simpl in H. destruct (rget r s); try discriminate. destruct (lookupn k (cur s)) as [it|] eqn:Hl; try discriminate.
   destruct (ready s) eqn:Er; simpl in H; [|discriminate].
   destruct (Nat.eqb (iid it) id) eqn:Eid; simpl in H; [|discriminate].
   destruct (top_prio (cur s) (prio it)); [|discriminate].
   apply Nat.eqb_eq in Eid. injection H as <-. split; [|split; [reflexivity|]].
   - rewrite <- Eid. eapply H3. eapply lookupn_in; eauto.
-  - exists it. split; [reflexivity|]. split; [exact Eid|].
-    unfold rget. simpl. unfold with_req. rewrite lookupn_setn. rewrite Nat.eqb_refl. reflexivity.
+  - exists it. split; [reflexivity|]. split; [exact Eid|]. rewrite rget_set_req, Nat.eqb_refl. reflexivity.
 Qed.
 
 (* a requester blocked in invalidate() resumes only when the vault is ready again and non-empty;
    until then it cannot select anything *)
-Lemma blocked_until_ready : forall s r,
-  rget r s = RBlocked ->
-  (forall k id, step s (Select r k id) = None) /\
-  (forall s', step s (Wake r WResumed) = Some s' -> ready s = true /\ cur s <> [] /\ rget r s' = RIdle).
+Lemma blocked_until_ready : forall s r k it,
+  rget r s = RBlocked k it ->
+  (forall k' id, step s (Select r k' id) = None) /\
+  (forall s', step s (Wake r WResumed) = Some s' -> ready s = true /\ cur s <> [] /\ rget r s' = RAfter k it).
 Proof.
-  intros s r Hb. split.
-  - intros k id. simpl. rewrite Hb. reflexivity.
-  - intros s' H. simpl in H. rewrite Hb in H.
+  intros s r k it Hb. split.
+  - intros k' id. simpl. rewrite Hb. reflexivity.
+  - intros s' H. simpl in H. rewrite Hb in H. unfold wake_expect in H.
     destruct (ready s) eqn:Er; [|discriminate].
     destruct (cur s) as [|x c] eqn:Ec; simpl in H; [discriminate|].
-    injection H as <-. repeat split; [discriminate|].
-    unfold rget. simpl. unfold with_req. rewrite lookupn_setn. rewrite Nat.eqb_refl. reflexivity.
+    injection H as <-. repeat split; [discriminate|]. rewrite rget_set_req, Nat.eqb_refl. reflexivity.
 Qed.
 
 (* ---------- progress of the requesters that reported a failure ---------- *)
 
-Lemma rget_set : forall s r x r' (s' : vstate),
-  req s' = with_req s r x -> rget r' s' = if Nat.eqb r' r then x else rget r' s.
-Proof.
-  intros s r x r' s' H. unfold rget. rewrite H. unfold with_req. rewrite lookupn_setn.
-  destruct (Nat.eqb r' r); reflexivity.
-Qed.
-
 (* whoever reports a failed item while nothing else is left WAITS (never fails on the spot);
-   if something is left it goes on at once *)
+   if something is left it goes on at once, to the re-check of _items *)
 Lemma report_waits : forall s r b s',
   step s (Invalidate r b) = Some s' ->
-  (cur s' = [] -> b = true /\ rget r s' = RBlocked /\ ready s' = false) /\
-  (cur s' <> [] -> b = false /\ rget r s' = RIdle).
+  exists k it, rget r s = RHold k it /\
+  (cur s' = [] -> b = true /\ rget r s' = RBlocked k it /\ ready s' = false) /\
+  (cur s' <> [] -> b = false /\ rget r s' = RAfter k it).
 Proof.
-  intros s r b s' H. simpl in H. destruct (rget r s) as [|k it|]; try discriminate.
+  intros s r b s' H. simpl in H. destruct (rget r s) as [| |k it| |] eqn:Er; try discriminate.
+  exists k, it. split; [reflexivity|].
   match type of H with
   | (if Bool.eqb b (is_empty ?c) then _ else _) = _ => destruct (is_empty c) eqn:Ee; destruct b; simpl in H; try discriminate
   end; injection H as <-; simpl; split; intros Hc;
@@ -310,57 +600,147 @@ Proof.
 Qed.
 
 (* a blocked requester stays blocked, whatever the others and the authenticator do ... *)
-Lemma blocked_stays : forall s r l s',
-  rget r s = RBlocked -> step s l = Some s' -> (forall o, l <> Wake r o) -> rget r s' = RBlocked.
+Lemma blocked_stays : forall s r k it l s',
+  rget r s = RBlocked k it -> step s l = Some s' -> (forall o, l <> Wake r o) -> rget r s' = RBlocked k it.
 Proof.
-  intros s r l s' Hb H Hne.
-  assert (Hother : forall r0 x (s0 : vstate), rget r0 s <> RBlocked -> req s0 = with_req s r0 x -> rget r s0 = RBlocked).
-  { intros r0 x s0 Hr0 Hreq. rewrite (rget_set s r0 x r s0 Hreq).
-    destruct (Nat.eqb r r0) eqn:E; [apply Nat.eqb_eq in E; subst; congruence|exact Hb]. }
-  destruct l as [r0 k id|r0|r0|r0 blocked|r0 o| |src]; simpl in H.
-  - destruct (rget r0 s) eqn:Er; try discriminate. destruct (lookupn k (cur s)); try discriminate.
+  intros s r k it l s' Hb H Hne.
+  assert (Hother : forall r0 x, (forall k0 i0, rget r0 s <> RBlocked k0 i0) -> rget r (set_req s r0 x) = RBlocked k it).
+  { intros r0 x Hr0. rewrite rget_set_req.
+    destruct (Nat.eqb r r0) eqn:E; [apply Nat.eqb_eq in E; subst; exfalso; eapply Hr0; eauto|exact Hb]. }
+  destruct l as [r0 now blocked|r0 o|r0 k0 id|r0|r0|r0 blocked|r0 o|r0 again| |src]; simpl in H.
+  - destruct (rget r0 s) eqn:Er; try discriminate. destruct (ready s); [|discriminate].
     match type of H with (if ?c then _ else _) = _ => destruct c end; [|discriminate].
-    injection H as <-. eapply Hother; [rewrite Er; discriminate|reflexivity].
+    injection H as <-. unfold rget. simpl. unfold with_req. rewrite lookupn_setn.
+    destruct (Nat.eqb r r0) eqn:E; [apply Nat.eqb_eq in E; subst; congruence|exact Hb].
+  - destruct (rget r0 s) eqn:Er; try discriminate.
+    match type of H with (if ?c then _ else _) = _ => destruct c end; [|discriminate].
+    injection H as <-. apply Hother. intros; rewrite Er; discriminate.
+  - destruct (rget r0 s) eqn:Er; try discriminate. destruct (lookupn k0 (cur s)); try discriminate.
+    match type of H with (if ?c then _ else _) = _ => destruct c end; [|discriminate].
+    injection H as <-. apply Hother. intros; rewrite Er; discriminate.
   - destruct (rget r0 s); try discriminate.
     match type of H with (if ?c then _ else _) = _ => destruct c end; [|discriminate]. injection H as <-. exact Hb.
   - destruct (rget r0 s) eqn:Er; try discriminate. injection H as <-.
-    eapply Hother; [rewrite Er; discriminate|reflexivity].
+    apply Hother. intros; rewrite Er; discriminate.
   - destruct (rget r0 s) eqn:Er; try discriminate.
     match type of H with (if ?c then _ else _) = _ => destruct c end; [|discriminate].
-    injection H as <-. eapply Hother; [rewrite Er; discriminate|reflexivity].
+    injection H as <-. unfold rget. simpl. unfold with_req. rewrite lookupn_setn.
+    destruct (Nat.eqb r r0) eqn:E; [apply Nat.eqb_eq in E; subst; congruence|exact Hb].
   - destruct (Nat.eq_dec r0 r) as [->|Hr]; [exfalso; apply (Hne o); reflexivity|].
     destruct (rget r0 s) eqn:Er; try discriminate.
     match type of H with (if ?c then _ else _) = _ => destruct c end; [|discriminate].
-    injection H as <-. unfold rget; simpl; unfold with_req; rewrite lookupn_setn.
+    injection H as <-. rewrite rget_set_req.
     destruct (Nat.eqb r r0) eqn:E; [apply Nat.eqb_eq in E; congruence|exact Hb].
+  - destruct (rget r0 s) eqn:Er; try discriminate.
+    match type of H with (if ?c then _ else _) = _ => destruct c end; [|discriminate].
+    injection H as <-. apply Hother. intros; rewrite Er; discriminate.
   - match type of H with (if ?c then _ else _) = _ => destruct c end; [|discriminate]. injection H as <-. exact Hb.
   - destruct (busy s); [|discriminate].
     destruct (update_converted src (cur s) (inv s) (nextid s)). injection H as <-. exact Hb.
 Qed.
 
 (* ... and once the vault is ready and non-empty it CAN resume, it can ONLY resume (no LoginError,
-   no further waiting), and is then free to select the fresh item *)
-Lemma blocked_resumes : forall s r,
-  rget r s = RBlocked -> ready s = true -> cur s <> [] ->
-  (exists s', step s (Wake r WResumed) = Some s' /\ rget r s' = RIdle /\ cur s' = cur s /\ ready s' = true) /\
+   no further waiting), and goes on to the re-check with the fresh items still there *)
+Lemma blocked_resumes : forall s r k it,
+  rget r s = RBlocked k it -> ready s = true -> cur s <> [] ->
+  (exists s', step s (Wake r WResumed) = Some s' /\ rget r s' = RAfter k it /\ cur s' = cur s /\ ready s' = true) /\
   (forall o s', step s (Wake r o) = Some s' -> o = WResumed).
 Proof.
-  intros s r Hb Hr Hc. split.
-  - simpl. rewrite Hb, Hr. destruct (cur s) as [|x c] eqn:Ec; [congruence|]. simpl.
-    eexists. split; [reflexivity|]. simpl. split; [|split; reflexivity].
-    unfold rget. simpl. unfold with_req. rewrite lookupn_setn, Nat.eqb_refl. reflexivity.
-  - intros o s' H. simpl in H. rewrite Hb, Hr in H. destruct (cur s) as [|x c]; [congruence|]. simpl in H.
+  intros s r k it Hb Hr Hc. split.
+  - simpl. rewrite Hb. unfold wake_expect. rewrite Hr. destruct (cur s) as [|x c] eqn:Ec; [congruence|]. simpl.
+    eexists. split; [reflexivity|]. split; [|split; [simpl; first [reflexivity|exact Ec|symmetry; exact Ec]|exact Hr]].
+    rewrite rget_set_req, Nat.eqb_refl. reflexivity.
+  - intros o s' H. simpl in H. rewrite Hb in H. unfold wake_expect in H. rewrite Hr in H.
+    destruct (cur s) as [|x c]; [congruence|]. simpl in H.
     destruct o; try discriminate. reflexivity.
 Qed.
 
-Lemma blocked_progress : forall s r,
-  rget r s = RBlocked ->
-  (forall l s', step s l = Some s' -> (forall o, l <> Wake r o) -> rget r s' = RBlocked) /\
+Lemma blocked_progress : forall s r k it,
+  rget r s = RBlocked k it ->
+  (forall l s', step s l = Some s' -> (forall o, l <> Wake r o) -> rget r s' = RBlocked k it) /\
   (ready s = true -> cur s <> [] ->
-     (exists s', step s (Wake r WResumed) = Some s' /\ rget r s' = RIdle /\ cur s' = cur s /\ ready s' = true) /\
+     (exists s', step s (Wake r WResumed) = Some s' /\ rget r s' = RAfter k it /\ cur s' = cur s /\ ready s' = true) /\
      (forall o s', step s (Wake r o) = Some s' -> o = WResumed)).
 Proof.
-  intros s r Hb. split; [intros l s'; apply blocked_stays; exact Hb|intros; apply blocked_resumes; assumption].
+  intros s r k it Hb. split; [intros l s'; apply blocked_stays; exact Hb|intros; apply blocked_resumes; assumption].
+Qed.
+
+(* ---------- the post-yield re-check of _items: never "the end of the authentication cycle" ---------- *)
+
+(* In every reachable state — whatever happened to the item meanwhile: invalidated by this or another
+   requester, expired and dropped on behalf of another requester, replaced under the same key by a
+   re-authentication — a requester that comes back from invalidate() is told to go round again, and is
+   then free to select the fresh credentials. *)
+Lemma recheck_again : forall src tr s r k it,
+  run (init src) tr = Some s -> rget r s = RAfter k it ->
+  (exists s', step s (Recheck r true) = Some s' /\ rget r s' = RIdle /\ cur s' = cur s /\ ready s' = ready s) /\
+  (forall again s', step s (Recheck r again) = Some s' -> again = true).
+Proof.
+  intros src tr s r k it Hrun Ha.
+  destruct (reachable_hinv _ _ _ Hrun) as [_ Hg].
+  assert (Hnc : is_current k it (cur s) = false).
+  { unfold is_current. destruct (lookupn k (cur s)) as [it'|] eqn:Hl; [|reflexivity].
+    apply Nat.eqb_neq. eapply (Hg r k it); [rewrite Ha; reflexivity|eapply lookupn_in; eauto]. }
+  split.
+  - simpl. rewrite Ha, Hnc. simpl. eexists. split; [reflexivity|].
+    split; [rewrite rget_set_req, Nat.eqb_refl; reflexivity|split; reflexivity].
+  - intros again s' H. simpl in H. rewrite Ha, Hnc in H. destruct again; [reflexivity|discriminate].
+Qed.
+
+(* ---------- expiry ---------- *)
+
+(* _expire(): exactly the items with expiration <= now leave the pool; nothing is remembered as invalid;
+   the requester waits iff that emptied the vault (and then a re-authentication is due) *)
+Lemma expire_effect : forall s r now b s',
+  step s (Expire r now b) = Some s' ->
+  (forall k it, In (k, it) (cur s') <-> In (k, it) (cur s) /\ expired_at now it = false) /\
+  inv s' = inv s /\ invalidated s' = invalidated s /\ nextid s' = nextid s /\
+  (b = true -> cur s' = [] /\ cur s <> [] /\ ready s' = false /\ rget r s' = RExpWait) /\
+  (b = false -> ready s' = true /\ rget r s' = RIdle).
+Proof.
+  intros s r now b s' H. simpl in H. destruct (rget r s); try discriminate. destruct (ready s) eqn:Er; [|discriminate].
+  set (c' := drop_expired now (cur s)) in *.
+  destruct (negb (Nat.eqb (length c') (length (cur s))) && is_empty c') eqn:Ew; destruct b; simpl in H; try discriminate;
+    injection H as <-; simpl.
+  - split; [|repeat split; try discriminate].
+    + intros k it. unfold c', drop_expired. rewrite filter_In. simpl. rewrite negb_true_iff. tauto.
+    + apply andb_true_iff in Ew. destruct Ew as [_ E]. apply is_empty_nil. exact E.
+    + apply andb_true_iff in Ew. destruct Ew as [E E2]. apply is_empty_nil in E2. fold c' in E2. rewrite E2 in E.
+      intros Hc. rewrite Hc in E. discriminate.
+    + unfold rget. simpl. unfold with_req. rewrite lookupn_setn, Nat.eqb_refl. reflexivity.
+  - split; [|repeat split; try discriminate].
+    + intros k it. unfold c', drop_expired. rewrite filter_In. simpl. rewrite negb_true_iff. tauto.
+    + unfold rget. simpl. unfold with_req. rewrite lookupn_setn, Nat.eqb_refl. reflexivity.
+Qed.
+
+(* what is selected right after a (non-waiting) _expire(now) is not expired at `now` *)
+Lemma select_unexpired : forall s r now s1 k id s2,
+  step s (Expire r now false) = Some s1 -> step s1 (Select r k id) = Some s2 ->
+  exists it, rget r s2 = RHold k it /\ iid it = id /\ expired_at now it = false.
+Proof.
+  intros s r now s1 k id s2 H1 H2.
+  destruct (expire_effect _ _ _ _ _ H1) as (Hin & _).
+  simpl in H2. destruct (rget r s1); try discriminate. destruct (lookupn k (cur s1)) as [it|] eqn:Hl; try discriminate.
+  match type of H2 with (if ?c then _ else _) = _ => destruct c eqn:Ec end; [|discriminate].
+  injection H2 as <-. exists it. split; [rewrite rget_set_req, Nat.eqb_refl; reflexivity|].
+  apply andb_true_iff in Ec. destruct Ec as [Ec _]. apply andb_true_iff in Ec. destruct Ec as [_ Ec].
+  apply Nat.eqb_eq in Ec. split; [exact Ec|]. apply lookupn_in in Hl. apply Hin in Hl. tauto.
+Qed.
+
+(* a requester waiting in _expire stays there until the vault is ready, then goes on to select() *)
+Lemma expwait_resumes : forall s r,
+  rget r s = RExpWait ->
+  (ready s = true ->
+     (exists s', step s (WakeExp r WResumed) = Some s' /\ rget r s' = RIdle /\ cur s' = cur s /\ ready s' = true) /\
+     (forall o s', step s (WakeExp r o) = Some s' -> o = WResumed)) /\
+  (forall k id, step s (Select r k id) = None).
+Proof.
+  intros s r He. split.
+  - intros Hr. split.
+    + simpl. rewrite He, Hr. simpl. eexists. split; [reflexivity|].
+      split; [rewrite rget_set_req, Nat.eqb_refl; reflexivity|split; [reflexivity|exact Hr]].
+    + intros o s' H. simpl in H. rewrite He, Hr in H. destruct o; simpl in H; try discriminate. reflexivity.
+  - intros k id. simpl. rewrite He. reflexivity.
 Qed.
 
 (* ---------- the re-authentication is started, and a fertile one releases everybody ---------- *)
@@ -378,8 +758,8 @@ Proof.
 Qed.
 
 (* a login result is fertile if it carries at least one set of credentials not remembered as invalid *)
-Definition fertile (src : list (nat * Z * Z)) (iv : list (nat * list item)) : Prop :=
-  exists k c p, In (k, c, p) src /\ cred_in c (hist k iv) = false.
+Definition fertile (src : list (nat * Z * Z * option Z)) (iv : list (nat * list item)) : Prop :=
+  exists k c p e, In (k, c, p, e) src /\ cred_in c (hist k iv) = false.
 
 Lemma setn_nonempty : forall {A} k (v : A) l, setn k v l <> [].
 Proof. intros A k v [|[k0 v0] l]; simpl; [discriminate|]. destruct (Nat.eqb k k0); discriminate. Qed.
@@ -387,55 +767,66 @@ Proof. intros A k v [|[k0 v0] l]; simpl; [discriminate|]. destruct (Nat.eqb k k0
 Lemma update_converted_nonempty : forall src c iv n c' n',
   update_converted src c iv n = (c', n') -> c <> [] \/ fertile src iv -> c' <> [].
 Proof.
-  induction src as [|[[k cr] p] src IH]; intros c iv n c' n' H Hor; simpl in H.
-  - injection H as <- <-. destruct Hor as [Hc|(k & c0 & p & [] & _)]. exact Hc.
+  induction src as [|[[[k cr] p] e] src IH]; intros c iv n c' n' H Hor; simpl in H.
+  - injection H as <- <-. destruct Hor as [Hc|(k & c0 & p & e & [] & _)]. exact Hc.
   - destruct (cred_in cr (hist k iv)) eqn:E.
-    + apply (IH _ _ _ _ _ H). destruct Hor as [Hc|(k0 & c0 & p0 & Hin & Hcr)]; [left; exact Hc|].
-      destruct Hin as [Heq|Hin]; [injection Heq as -> -> ->; congruence|]. right. exists k0, c0, p0. auto.
+    + apply (IH _ _ _ _ _ H). destruct Hor as [Hc|(k0 & c0 & p0 & e0 & Hin & Hcr)]; [left; exact Hc|].
+      destruct Hin as [Heq|Hin]; [injection Heq as -> -> -> ->; congruence|]. right. exists k0, c0, p0, e0. auto.
     + apply (IH _ _ _ _ _ H). left. apply setn_nonempty.
 Qed.
 
-(* after a fertile login EVERY blocked requester is still there, can resume, and can only resume *)
+(* after a fertile login EVERY requester blocked in invalidate() or in _expire() is still there, can
+   resume, and can only resume *)
 Lemma all_blocked_resume : forall s src s',
   step s (Populate src) = Some s' -> fertile src (inv s) ->
   ready s' = true /\ cur s' <> [] /\
-  forall r, rget r s = RBlocked ->
-    rget r s' = RBlocked /\
-    (exists s'', step s' (Wake r WResumed) = Some s'' /\ rget r s'' = RIdle /\ cur s'' = cur s' /\ ready s'' = true) /\
-    (forall o s'', step s' (Wake r o) = Some s'' -> o = WResumed).
+  (forall r k it, rget r s = RBlocked k it ->
+    rget r s' = RBlocked k it /\
+    (exists s'', step s' (Wake r WResumed) = Some s'' /\ rget r s'' = RAfter k it /\ cur s'' = cur s' /\ ready s'' = true) /\
+    (forall o s'', step s' (Wake r o) = Some s'' -> o = WResumed)) /\
+  (forall r, rget r s = RExpWait ->
+    rget r s' = RExpWait /\
+    (exists s'', step s' (WakeExp r WResumed) = Some s'' /\ rget r s'' = RIdle /\ cur s'' = cur s' /\ ready s'' = true) /\
+    (forall o s'', step s' (WakeExp r o) = Some s'' -> o = WResumed)).
 Proof.
   intros s src s' H Hf. simpl in H. destruct (busy s); [|discriminate].
   destruct (update_converted src (cur s) (inv s) (nextid s)) as [c' n'] eqn:Hu.
   injection H as <-.
   assert (Hne : c' <> []) by (eapply update_converted_nonempty; [exact Hu|right; exact Hf]).
-  split; [reflexivity|]. split; [exact Hne|].
-  intros r Hb.
-  match goal with
-  | |- rget r ?s1 = _ /\ _ =>
-      assert (Hb' : rget r s1 = RBlocked) by exact Hb;
-      split; [exact Hb'|]; apply blocked_resumes; [exact Hb'|reflexivity|exact Hne]
-  end.
+  split; [reflexivity|]. split; [exact Hne|]. split.
+  - intros r k it Hb.
+    match goal with
+    | |- rget r ?s1 = _ /\ _ =>
+        assert (Hb' : rget r s1 = RBlocked k it) by exact Hb;
+        split; [exact Hb'|]; apply blocked_resumes; [exact Hb'|reflexivity|exact Hne]
+    end.
+  - intros r He.
+    match goal with
+    | |- rget r ?s1 = _ /\ _ =>
+        assert (He' : rget r s1 = RExpWait) by exact He;
+        split; [exact He'|]; destruct (expwait_resumes s1 r He') as [Hx _]; apply Hx; reflexivity
+    end.
 Qed.
 
-Example fertile_example : fertile [(0, 11%Z, 0%Z)] [(0, [{| iid := 0; cred := 10%Z; prio := 0%Z |}])].
-Proof. exists 0, 11%Z, 0%Z. split; [left; reflexivity|reflexivity]. Qed.
+Example fertile_example : fertile [(0, 11%Z, 0%Z, None)] [(0, [{| iid := 0; cred := 10%Z; prio := 0%Z; exp := None |}])].
+Proof. exists 0, 11%Z, 0%Z, None. split; [left; reflexivity|reflexivity]. Qed.
 
 (* credentials equal to one of the (at most 3) remembered invalid ones of their key are never current *)
 Lemma no_reuse_within_history : forall src tr s k it,
   run (init src) tr = Some s -> lookupn k (cur s) = Some it ->
   cred_in (cred it) (hist k (inv s)) = false /\ length (hist k (inv s)) <= 3.
 Proof.
-  intros src tr s k it Hrun Hl. destruct (reachable_inv _ _ _ Hrun) as [(H1 & H2 & H3 & H4) _ _ Hh _ _ _].
+  intros src tr s k it Hrun Hl. destruct (reachable_inv _ _ _ Hrun) as [(H1 & H2 & H3 & H4 & H5) _ _ Hh _ _ _].
   split; [apply H4; exact Hl|apply Hh].
 Qed.
 
 (* ... but the history is only 3 long: the unrestricted statement is false *)
 Definition reuse_trace1 : list vlabel :=
-  [Select 1 0 0; Invalidate 1 true; WakeEmpty; Populate [(0, 11%Z, 0%Z)]; Wake 1 WResumed].
+  [Select 1 0 0; Invalidate 1 true; WakeEmpty; Populate [(0, 11%Z, 0%Z, None)]; Wake 1 WResumed; Recheck 1 true].
 Definition reuse_trace2 : list vlabel :=
-  [Select 1 0 1; Invalidate 1 true; WakeEmpty; Populate [(0, 12%Z, 0%Z)]; Wake 1 WResumed;
-   Select 1 0 2; Invalidate 1 true; WakeEmpty; Populate [(0, 13%Z, 0%Z)]; Wake 1 WResumed;
-   Select 1 0 3; Invalidate 1 true; WakeEmpty; Populate [(0, 10%Z, 0%Z)]; Wake 1 WResumed;
+  [Select 1 0 1; Invalidate 1 true; WakeEmpty; Populate [(0, 12%Z, 0%Z, None)]; Wake 1 WResumed; Recheck 1 true;
+   Select 1 0 2; Invalidate 1 true; WakeEmpty; Populate [(0, 13%Z, 0%Z, None)]; Wake 1 WResumed; Recheck 1 true;
+   Select 1 0 3; Invalidate 1 true; WakeEmpty; Populate [(0, 10%Z, 0%Z, None)]; Wake 1 WResumed; Recheck 1 true;
    Select 1 0 4].
 
 Lemma no_reuse_refuted :
@@ -444,11 +835,11 @@ Lemma no_reuse_refuted :
     run s1 tr2 = Some s2 /\ lookupn k (cur s2) = Some it /\ cred it = c /\
     rget 1 s2 = RHold k it.
 Proof.
-  exists [(0, 10%Z, 0%Z)], reuse_trace1, reuse_trace2.
-  destruct (run (init [(0, 10%Z, 0%Z)]) reuse_trace1) as [s1|] eqn:H1; [|vm_compute in H1; discriminate].
+  exists [(0, 10%Z, 0%Z, None)], reuse_trace1, reuse_trace2.
+  destruct (run (init [(0, 10%Z, 0%Z, None)]) reuse_trace1) as [s1|] eqn:H1; [|vm_compute in H1; discriminate].
   destruct (run s1 reuse_trace2) as [s2|] eqn:H2;
     [|vm_compute in H1; injection H1 as <-; vm_compute in H2; discriminate].
-  exists s1, s2, 0, 10%Z, {| iid := 4; cred := 10; prio := 0 |}.
+  exists s1, s2, 0, 10%Z, {| iid := 4; cred := 10; prio := 0; exp := None |}.
   vm_compute in H1. injection H1 as <-. vm_compute in H2. injection H2 as <-.
   vm_compute. repeat split; reflexivity.
 Qed.
@@ -458,46 +849,50 @@ Qed.
 Definition Stuck (s : vstate) : Prop :=
   ready s = true /\ cur s = [] /\ busy s = false /\ forall r, rget r s = RIdle.
 
-Lemma stuck_step : forall s l s', Stuck s -> step s l = Some s' -> s' = s /\ exists r, l = SelectErr r.
+Definition fails_only (l : vlabel) : Prop := (exists r, l = SelectErr r) \/ (exists r now, l = Expire r now false).
+
+Lemma stuck_step : forall s l s', Stuck s -> step s l = Some s' -> Stuck s' /\ fails_only l.
 Proof.
-  intros s l s' (Hr & Hc & Hb & Hq) H. destruct l as [r k id|r|r|r blocked|r o| |src]; simpl in H.
-  - rewrite (Hq r) in H. rewrite Hc in H. simpl in H. discriminate.
-  - rewrite (Hq r) in H. destruct (ready s && is_empty (cur s)); [|discriminate]. injection H as <-. eauto.
-  - rewrite (Hq r) in H. discriminate.
-  - rewrite (Hq r) in H. discriminate.
-  - rewrite (Hq r) in H. discriminate.
+  intros s l s' (Hr & Hc & Hb & Hq) H.
+  destruct l as [r now blocked|r o|r k id|r|r|r blocked|r o|r again| |src]; simpl in H;
+    try (rewrite (Hq r) in H; try rewrite Hc in H; simpl in H; try discriminate).
+  - rewrite Hr in H; try rewrite Hc in H. simpl in H. destruct blocked; simpl in H; [discriminate|]. injection H as <-.
+    split; [|right; eauto]. repeat split; simpl; auto.
+    intros r0. unfold rget. simpl. unfold with_req. rewrite lookupn_setn.
+    destruct (Nat.eqb r0 r); [reflexivity|apply Hq].
+  - rewrite Hr in H; try rewrite Hc in H. simpl in H. injection H as <-. split; [repeat split; assumption|left; eauto].
   - rewrite Hr in H. simpl in H. discriminate.
   - rewrite Hb in H. discriminate.
 Qed.
 
-(* from a stuck state every request fails (SelectErr = LoginError) and no re-authentication
-   (WakeEmpty) is ever possible again, whatever happens *)
+(* from a stuck state every request fails (SelectErr = LoginError; _expire finds nothing) and no
+   re-authentication (WakeEmpty) is ever possible again, whatever happens *)
 Lemma stuck_forever : forall tr s s', Stuck s -> run s tr = Some s' ->
-  s' = s /\ Forall (fun l => exists r, l = SelectErr r) tr /\ step s' WakeEmpty = None.
+  Stuck s' /\ Forall fails_only tr /\ step s' WakeEmpty = None.
 Proof.
   induction tr as [|l tr IH]; intros s s' HS H; simpl in H.
-  - injection H as <-. split; [reflexivity|]. split; [constructor|].
+  - injection H as <-. split; [exact HS|]. split; [constructor|].
     destruct HS as (Hr & _). simpl. rewrite Hr. reflexivity.
   - destruct (step s l) as [s1|] eqn:Hs; [|discriminate].
-    destruct (stuck_step _ _ _ HS Hs) as [-> Hl].
-    destruct (IH _ _ HS H) as (H1 & H2 & H3). split; [exact H1|]. split; [constructor; assumption|exact H3].
+    destruct (stuck_step _ _ _ HS Hs) as [HS1 Hl].
+    destruct (IH _ _ HS1 H) as (H1 & H2 & H3). split; [exact H1|]. split; [constructor; assumption|exact H3].
 Qed.
 
 Definition barren_trace : list vlabel :=
-  [Select 1 0 0; Invalidate 1 true; WakeEmpty; Populate [(0, 10%Z, 0%Z)]; Wake 1 WLoginErr].
+  [Select 1 0 0; Invalidate 1 true; WakeEmpty; Populate [(0, 10%Z, 0%Z, None)]; Wake 1 WLoginErr].
 
-Lemma stuck_reachable : exists s, run (init [(0, 10%Z, 0%Z)]) barren_trace = Some s /\ Stuck s /\ wakes s = 1.
+Lemma stuck_reachable : exists s, run (init [(0, 10%Z, 0%Z, None)]) barren_trace = Some s /\ Stuck s /\ wakes s = 1.
 Proof.
-  destruct (run (init [(0, 10%Z, 0%Z)]) barren_trace) as [s|] eqn:H; [|vm_compute in H; discriminate].
+  destruct (run (init [(0, 10%Z, 0%Z, None)]) barren_trace) as [s|] eqn:H; [|vm_compute in H; discriminate].
   exists s. split; [reflexivity|]. vm_compute in H. injection H as <-.
   split; [|reflexivity]. repeat split; try reflexivity.
   intros r. unfold rget. simpl. destruct (Nat.eqb r 1); reflexivity.
 Qed.
 
 Lemma recovery_after_barren_login_refuted :
-  exists s, run (init [(0, 10%Z, 0%Z)]) barren_trace = Some s /\ Stuck s /\
+  exists s, run (init [(0, 10%Z, 0%Z, None)]) barren_trace = Some s /\ Stuck s /\
     forall tr s', run s tr = Some s' ->
-      s' = s /\ Forall (fun l => exists r, l = SelectErr r) tr /\ step s' WakeEmpty = None.
+      Stuck s' /\ Forall fails_only tr /\ step s' WakeEmpty = None.
 Proof.
   destruct stuck_reachable as (s & H1 & H2 & _). exists s. split; [exact H1|]. split; [exact H2|].
   intros tr s'. exact (stuck_forever tr s s' H2).
@@ -507,12 +902,12 @@ Qed.
 Definition burst_trace : list vlabel :=
   [Select 1 0 0; Select 2 0 0; Select 3 0 0;
    Invalidate 1 true; Invalidate 2 true; WakeEmpty; Invalidate 3 true;
-   Populate [(0, 11%Z, 0%Z)];
-   Wake 1 WResumed; Wake 2 WResumed; Wake 3 WResumed;
+   Populate [(0, 11%Z, 0%Z, None)];
+   Wake 1 WResumed; Wake 2 WResumed; Wake 3 WResumed; Recheck 1 true; Recheck 2 true; Recheck 3 true;
    Select 1 0 1; Select 2 0 1; Select 3 0 1; Done 1; Done 2; Done 3].
 
 Example burst_example :
-  match run (init [(0, 10%Z, 0%Z)]) burst_trace with
+  match run (init [(0, 10%Z, 0%Z, None)]) burst_trace with
   | Some s => (wakes s, invalidated s, cur_ids s, ready s)
   | None => (0, [], [], false)
   end = (1, [0], [(0, 1)], true).
@@ -521,27 +916,50 @@ Proof. vm_compute. reflexivity. Qed.
 (* ---------- non-vacuity of the hypotheses used above ---------- *)
 Definition blocked_trace : list vlabel := [Select 1 0 0; Select 2 0 0; Invalidate 1 true; Invalidate 2 true; WakeEmpty].
 
+Definition item10 : item := {| iid := 0; cred := 10; prio := 0; exp := None |}.
+
 (* a reachable state with two requesters blocked on the same invalidated item while the login runs;
    a fertile Populate is enabled there *)
 Example blocked_example :
-  exists s, run (init [(0, 10%Z, 0%Z)]) blocked_trace = Some s /\
-    rget 1 s = RBlocked /\ rget 2 s = RBlocked /\ ready s = false /\ busy s = true /\
-    fertile [(0, 11%Z, 0%Z)] (inv s) /\
-    exists s', step s (Populate [(0, 11%Z, 0%Z)]) = Some s'.
+  exists s, run (init [(0, 10%Z, 0%Z, None)]) blocked_trace = Some s /\
+    rget 1 s = RBlocked 0 item10 /\ rget 2 s = RBlocked 0 item10 /\ ready s = false /\ busy s = true /\
+    fertile [(0, 11%Z, 0%Z, None)] (inv s) /\
+    exists s', step s (Populate [(0, 11%Z, 0%Z, None)]) = Some s'.
 Proof.
-  destruct (run (init [(0, 10%Z, 0%Z)]) blocked_trace) as [s|] eqn:H; [|vm_compute in H; discriminate].
+  destruct (run (init [(0, 10%Z, 0%Z, None)]) blocked_trace) as [s|] eqn:H; [|vm_compute in H; discriminate].
   exists s. split; [reflexivity|]. vm_compute in H. injection H as <-.
   repeat split; try reflexivity.
-  - exists 0, 11%Z, 0%Z. split; [left; reflexivity|reflexivity].
+  - exists 0, 11%Z, 0%Z, None. split; [left; reflexivity|reflexivity].
   - eexists. vm_compute. reflexivity.
 Qed.
 
 (* a reachable state with a current item (hypotheses of the no-reuse / fresh-selection theorems) *)
 Example current_example :
-  exists s it s', run (init [(0, 10%Z, 0%Z)]) reuse_trace1 = Some s /\ lookupn 0 (cur s) = Some it /\
+  exists s it s', run (init [(0, 10%Z, 0%Z, None)]) reuse_trace1 = Some s /\ lookupn 0 (cur s) = Some it /\
     step s (Select 1 0 1) = Some s' /\ step s (Select 1 0 0) = None.
 Proof.
-  destruct (run (init [(0, 10%Z, 0%Z)]) reuse_trace1) as [s|] eqn:H; [|vm_compute in H; discriminate].
+  destruct (run (init [(0, 10%Z, 0%Z, None)]) reuse_trace1) as [s|] eqn:H; [|vm_compute in H; discriminate].
   vm_compute in H. injection H as <-. eexists. eexists. eexists.
   split; [reflexivity|]. split; [vm_compute; reflexivity|]. split; vm_compute; reflexivity.
+Qed.
+
+(* the credentials of requester 1 expire (t = 5) while its request is in flight; requester 2 enters the
+   vault at t = 6: _expire drops the item (NOT remembered as invalid), re-authenticates, proceeds; then
+   requester 1 comes back with its 401: invalidate is a no-op, the re-check sends it round again, it
+   gets the fresh item.  The trace that stops the iteration instead is not a trace of the vault. *)
+Definition expiry_trace (again : bool) : list vlabel :=
+  [Expire 1 0 false; Select 1 0 0; Expire 2 6 true; WakeEmpty; Populate [(0, 11%Z, 0%Z, Some 100%Z)];
+   WakeExp 2 WResumed; Select 2 0 1; Invalidate 1 false; Recheck 1 again].
+
+Example expiry_example :
+  match run (init [(0, 10%Z, 0%Z, Some 5%Z)]) (expiry_trace true ++ [Expire 1 7 false; Select 1 0 1; Done 1; Done 2]) with
+  | Some s => (wakes s, invalidated s, map (fun x => inv_creds s x) [0], cur_ids s, expirations s)
+  | None => (0, [], [], [], 0)
+  end = (1, [], [[]], [(0, 1)], 1) /\
+  run (init [(0, 10%Z, 0%Z, Some 5%Z)]) (expiry_trace false) = None /\
+  exists s it, run (init [(0, 10%Z, 0%Z, Some 5%Z)]) (removelast (expiry_trace true)) = Some s /\ rget 1 s = RAfter 0 it.
+Proof.
+  split; [vm_compute; reflexivity|]. split; [vm_compute; reflexivity|].
+  destruct (run (init [(0, 10%Z, 0%Z, Some 5%Z)]) (removelast (expiry_trace true))) as [s|] eqn:H; [|vm_compute in H; discriminate].
+  vm_compute in H. injection H as <-. eexists. eexists. split; [reflexivity|]. vm_compute. reflexivity.
 Qed.
